@@ -20,7 +20,9 @@ use crate::{
     SingleObjective, State,
 };
 
-pub struct Sphere { pub returned: Mutex<Vec<f64>> }
+/// `alt`: a second instance of the same problem type with another dimension and domain (used by C08: a configuration object
+/// that has been run on one instance must behave like a fresh one on another)
+pub struct Sphere { pub returned: Mutex<Vec<f64>>, pub alt: bool }
 impl Problem for Sphere {
     type Encoding = Vec<f64>;
     type Objective = SingleObjective;
@@ -28,10 +30,10 @@ impl Problem for Sphere {
 }
 impl VectorProblem for Sphere {
     type Element = f64;
-    fn dimension(&self) -> usize { 3 }
+    fn dimension(&self) -> usize { if self.alt { 5 } else { 3 } }
 }
 impl LimitedVectorProblem for Sphere {
-    fn domain(&self) -> Vec<std::ops::Range<f64>> { vec![-5.0..5.0; 3] }
+    fn domain(&self) -> Vec<std::ops::Range<f64>> { if self.alt { vec![-100.0..300.0; 5] } else { vec![-5.0..5.0; 3] } }
 }
 pub fn sphere(x: &[f64]) -> f64 { x.iter().map(|v| (v - 0.5) * (v - 0.5)).sum::<f64>() + 1.0 }
 impl ObjectiveFunction for Sphere {
@@ -156,12 +158,14 @@ pub fn binary_template(n: u32) -> Configuration<OneMax> {
     ga::binary_ga(ga::BinaryProblemParameters { population_size: 8, tournament_size: 3, rm: 0.2, pc: 0.8, pm: 0.5 }, cond(n)).unwrap()
 }
 
-/// runs every shipped template (3 seeds) and hands each result to `check`
+/// runs every shipped template and hands each result to `check`: 3 seeds x 15 iterations, then 30 further seeds x {1, 2, 3, 6}
+/// iterations (what happens in the LAST pass of a run is only visible if runs end after different numbers of passes)
 pub fn for_all_runs(check: &mut dyn FnMut(&RunResult)) -> u64 {
     let mut runs = 0u64;
-    for seed in 0..3u64 {
-        let sp = Sphere { returned: Mutex::new(Vec::new()) };
-        let n = 15;
+    let mut plan: Vec<(u64, u32)> = (0..3u64).map(|s| (s, 15)).collect();
+    for seed in 100..130u64 { for n in [1u32, 2, 3, 6] { plan.push((seed, n)); } }
+    for (seed, n) in plan {
+        let sp = Sphere { returned: Mutex::new(Vec::new()), alt: false };
         let real = real_templates(n);
         for (name, c) in real { let r = run_one(name, seed, if name.contains("ils") { 5 } else if name.contains("low energy") { 40 } else { n }, &sp, &sp.returned, c, &|s: &Vec<f64>| sphere(s)); check(&r); runs += 1; }
         let pp = PermCost { returned: Mutex::new(Vec::new()) };
@@ -200,7 +204,7 @@ pub fn c07_native_whole_runs() {
     let mut extra = 0u64;
     for seed in 0..12u64 {
         for (ke0, buffer) in [(10.0, 0.0), (2.0, 5.0)] {
-            let sp = Sphere { returned: Mutex::new(Vec::new()) };
+            let sp = Sphere { returned: Mutex::new(Vec::new()), alt: false };
             let c = cro::real_cro(cro::RealProblemParameters { initial_population_size: 10, mole_coll: 0.3, kinetic_energy_lr: 0.2, alpha: 5, beta: 0.1, initial_kinetic_energy: ke0,
                 buffer, on_wall_deviation: 0.3, decomposition_deviation: 0.5 }, cond(50)).unwrap();
             let r = run_one("real_cro[rejections]", seed, 50, &sp, &sp.returned, c, &|s: &Vec<f64>| sphere(s));
@@ -216,6 +220,72 @@ pub fn c07_native_whole_runs() {
     });
     report(&failures, "the best objective value reported at the end differs from the minimum the objective function returned");
     println!("c07_native_whole_runs: {} runs checked", runs);
+}
+/// leading identifiers of the items of every list (`[...]` = a `Block` of components) in a RON rendering of a component tree
+fn ron_blocks(text: &str) -> Vec<Vec<String>> {
+    struct Frame { list: bool, items: Vec<String>, cur: String, naming: bool }
+    let mut out = Vec::new();
+    let mut stack: Vec<Frame> = vec![Frame { list: false, items: Vec::new(), cur: String::new(), naming: true }];
+    let mut chars = text.chars().peekable();
+    while let Some(c) = chars.next() {
+        match c {
+            '"' => { while let Some(d) = chars.next() { if d == '\\' { chars.next(); } else if d == '"' { break } } let t = stack.last_mut().unwrap(); t.naming = false; }
+            '[' | '(' | '{' => {
+                let t = stack.last_mut().unwrap();
+                if t.cur.is_empty() { t.cur.push(c); }
+                t.naming = false;
+                stack.push(Frame { list: c == '[', items: Vec::new(), cur: String::new(), naming: true });
+            }
+            ']' | ')' | '}' => {
+                let mut f = stack.pop().unwrap();
+                if !f.cur.is_empty() { f.items.push(std::mem::take(&mut f.cur)); }
+                if f.list { out.push(f.items); }
+            }
+            ',' => { let t = stack.last_mut().unwrap(); if !t.cur.is_empty() { let x = std::mem::take(&mut t.cur); t.items.push(x); } t.naming = true; }
+            c if c.is_alphanumeric() || c == '_' => { let t = stack.last_mut().unwrap(); if t.naming { t.cur.push(c); } }
+            c if c.is_whitespace() => { let t = stack.last_mut().unwrap(); if !t.cur.is_empty() { t.naming = false; } }
+            _ => { let t = stack.last_mut().unwrap(); t.naming = false; }
+        }
+    }
+    out
+}
+
+/// The modular argument behind "the best objective value reported at the end of a run equals the minimum value the objective
+/// function returned": (a) an evaluation step evaluates exactly the current population (C06 contracts), (b) right after
+/// `BestIndividualUpdate` the recorded best is at least as good as every individual of that population and only ever improves
+/// (C07 Verus contracts), so it suffices that (c) in every shipped template EVERY evaluation step is directly followed by a
+/// best-individual update.  (c) is a property of the template's component tree; it is checked here on the tree each template
+/// constructor really builds (rendered through the crate's own serialisation), for every shipped template.
+// @native-harness
+pub fn c07_native_template_structure() {
+    let mut trees: Vec<(&'static str, String)> = Vec::new();
+    let render = |c: &dyn crate::Component<Sphere>| ron::ser::to_string_pretty(c, ron::ser::PrettyConfig::default().struct_names(true)).expect("a template could not be serialised");
+    for (name, c) in real_templates(5) { trees.push((name, render(c.heuristic()))); }
+    for (name, c) in perm_templates(5) { trees.push((name, ron::ser::to_string_pretty(c.heuristic(), ron::ser::PrettyConfig::default().struct_names(true)).expect("a template could not be serialised"))); }
+    trees.push(("binary_ga", ron::ser::to_string_pretty(binary_template(5).heuristic(), ron::ser::PrettyConfig::default().struct_names(true)).expect("a template could not be serialised")));
+    let mut bad = 0;
+    let mut evaluations = 0;
+    for (name, text) in &trees {
+        let blocks = ron_blocks(text);
+        let mut seen = 0;
+        for items in &blocks {
+            for (i, it) in items.iter().enumerate() {
+                if it == "PopulationEvaluator" {
+                    seen += 1;
+                    // (a `Logger` only reads the state: it may stand between the two)
+                    let next = items.iter().skip(i + 1).find(|s| s.as_str() != "Logger");
+                    if next.map(|s| s.as_str()) != Some("BestIndividualUpdate") {
+                        eprintln!("COUNTEREXAMPLE template={name} clause=evaluation-followed-by-best-update: evaluation step number {seen} of the component tree is followed by {:?}, not by a best-individual update; block = {items:?}", next);
+                        bad += 1;
+                    }
+                }
+            }
+        }
+        if seen == 0 { eprintln!("COUNTEREXAMPLE template={name} clause=evaluation-found: no evaluation step found in the rendered component tree:\n{text}"); bad += 1; }
+        evaluations += seen;
+    }
+    if bad > 0 { panic!("a shipped template evaluates without updating the best individual right afterwards") }
+    println!("c07_native_template_structure: {} templates, {} evaluation steps, each directly followed by a best-individual update", trees.len(), evaluations);
 }
 // @native-harness
 pub fn c05_native_whole_runs() {
@@ -291,4 +361,67 @@ pub fn c16_native_whole_runs() {
     });
     report(&failures, "a shipped template does not run to completion with a balanced stack");
     println!("c16_native_whole_runs: {} runs checked", runs);
+}
+
+/// "given valid parameters ... for every seed and problem instance": every parameter set below is ACCEPTED by the template's
+/// constructor; they sit at the edges of what the constructors admit (one individual, selection size = population size,
+/// probabilities exactly 0 and 1, lambda < mu, population = 2y for DE, ...)
+fn corner_templates(n: u32) -> Vec<(String, Configuration<Sphere>, Option<(usize, usize)>)> {
+    let mut v: Vec<(String, Configuration<Sphere>, Option<(usize, usize)>)> = Vec::new();
+    for (pop, tour, pm, pc) in [(2u32, 1u32, 1.0, 1.0), (2, 2, 0.0, 0.0), (3, 3, 0.5, 0.5), (5, 1, 1.0, 0.0), (4, 4, 0.0, 1.0)] {
+        v.push((format!("real_ga[pop={pop} tournament={tour} pm={pm} pc={pc}]"), ga::real_ga(ga::RealProblemParameters { population_size: pop, tournament_size: tour, pm, deviation: 0.2, pc }, cond(n)).unwrap(), Some((pop as usize, pop as usize))));
+    }
+    for (k, sw, ew, c1, c2) in [(1u32, 0.9, 0.4, 1.0, 1.5), (2, 0.0, 0.0, 0.0, 0.0), (3, 1.2, 1.2, 2.0, 0.0)] {
+        v.push((format!("real_pso[particles={k} w={sw}->{ew} c1={c1} c2={c2}]"), pso::real_pso(pso::RealProblemParameters { num_particles: k, start_weight: sw, end_weight: ew, c_one: c1, c_two: c2, v_max: 1.0 }, cond(n)).unwrap(), Some((k as usize, k as usize))));
+    }
+    for (t0, alpha) in [(1.0e-300, 0.5), (1.0e300, 0.999), (1.0, 0.0)] {
+        v.push((format!("real_sa[t0={t0} alpha={alpha}]"), sa::real_sa(sa::RealProblemParameters { t_0: t0, alpha, deviation: 0.3 }, cond(n)).unwrap(), Some((1, 1))));
+    }
+    v.push(("real_ls[1 neighbour]".into(), ls::real_ls(ls::RealProblemParameters { n_neighbors: 1, deviation: 0.3 }, cond(n)).unwrap(), Some((1, 1))));
+    for (init, max, lo, hi) in [(1u32, 1u32, 1u32, 1u32), (3, 3, 0, 2), (2, 6, 2, 2), (1, 4, 0, 5)] {
+        v.push((format!("real_iwo[initial={init} max={max} seeds={lo}..{hi}]"), iwo::real_iwo(iwo::RealProblemParameters { initial_population_size: init, max_population_size: max, min_number_of_seeds: lo, max_number_of_seeds: hi, initial_deviation: 0.1, final_deviation: 1.0, modulation_index: 2 }, cond(n)).unwrap(), Some((1, max as usize))));
+    }
+    for (mu, lambda) in [(1u32, 1u32), (3, 1), (1, 5), (4, 4)] {
+        v.push((format!("real_mu_plus_lambda_es[mu={mu} lambda={lambda}]"), es::real_mu_plus_lambda_es::<Sphere, ()>(es::RealProblemParameters { population_size: mu, lambda, deviation: 0.3 }, cond(n)).unwrap(), Some((mu as usize, mu as usize))));
+    }
+    for (pop, y, pc) in [(2u32, 1u32, 0.8), (3, 1, 0.0), (4, 2, 1.0), (5, 2, 0.5), (6, 2, 0.8), (9, 2, 0.8)] {
+        v.push((format!("real_de[pop={pop} y={y} pc={pc}]"), de::real_de(de::RealProblemParameters { population_size: pop, y, f: 0.5, pc }, cond(n)).unwrap(), Some((pop as usize, pop as usize))));
+    }
+    for pop in [1u32, 2] {
+        v.push((format!("real_fa[pop={pop}]"), fa::real_fa(fa::RealProblemParameters { pop_size: pop, alpha: 0.25, beta: 1.0, gamma: 1.0, delta: 0.97 }, cond(n)).unwrap(), Some((pop as usize, pop as usize))));
+        v.push((format!("real_bh[particles={pop}]"), bh::real_bh(bh::RealProblemParameters { num_particles: pop }, cond(n)).unwrap(), Some((pop as usize, pop as usize))));
+        v.push((format!("real_cro[molecules={pop}]"), cro::real_cro(cro::RealProblemParameters { initial_population_size: pop, mole_coll: 0.5, kinetic_energy_lr: 0.5, alpha: 2, beta: 0.2, initial_kinetic_energy: 20.0, buffer: 0.0, on_wall_deviation: 0.2, decomposition_deviation: 0.3 }, cond(n)).unwrap(), None));
+    }
+    v
+}
+
+// @native-harness
+pub fn c16_native_parameter_corners() {
+    let mut failed = 0u64;
+    let mut runs = 0u64;
+    let n = 6u32;
+    for seed in 0..4u64 {
+        for (name, c, size) in corner_templates(n) {
+            let sp = Sphere { returned: Mutex::new(Vec::new()), alt: seed % 2 == 1 };
+            let prev = std::panic::take_hook();
+            std::panic::set_hook(Box::new(|_| {}));
+            let r = std::panic::catch_unwind(std::panic::AssertUnwindSafe(|| c.optimize_with(&sp, |state: &mut State<Sphere>| { state.insert_evaluator(Sequential::<Sphere>::new()); state.insert(Random::new(seed)); Ok(()) })));
+            std::panic::set_hook(prev);
+            let why = match r {
+                Err(p) => Some(format!("clause=runs-to-completion the run panicked: {}", p.downcast_ref::<String>().cloned().or_else(|| p.downcast_ref::<&str>().map(|s| s.to_string())).unwrap_or_default())),
+                Ok(Err(e)) => Some(format!("clause=runs-to-completion the run failed: {e:#}")),
+                Ok(Ok(state)) => {
+                    let pops = state.populations();
+                    if state.iterations() != n { Some(format!("clause=requested-iterations {} iterations performed, {n} requested", state.iterations())) }
+                    else if pops.len() != 1 { Some(format!("clause=stack-balanced {} populations on the stack at the end of the run", pops.len())) }
+                    else if size.map_or(false, |(lo, hi)| pops.current().len() < lo || pops.current().len() > hi) { Some(format!("clause=population-size final population size {} outside the prescribed {:?}", pops.current().len(), size.unwrap())) }
+                    else { None }
+                }
+            };
+            if let Some(why) = why { eprintln!("COUNTEREXAMPLE template={name} seed={seed} {why}"); failed += 1; }
+            runs += 1;
+        }
+    }
+    if failed > 0 { panic!("a shipped template does not run to completion with a balanced stack at the edge of its parameter range") }
+    println!("c16_native_parameter_corners: {} runs checked", runs);
 }
